@@ -45,9 +45,16 @@ def native_constraints(field):
 
 
 def write_constraints(field, native, serializer):
+    def lexical(value):
+        ret = serializer(value)
+        if hasattr(ret, 'isoformat'):
+            # (formats that hand native temporal values to their writer)
+            ret = ret.isoformat()
+        return ret
+
     for key, value in native.items():
         field['constraints'][key] = \
-            [serializer(v) for v in value] if key == 'enum' else serializer(value)
+            [lexical(v) for v in value] if key == 'enum' else lexical(value)
 
 
 class FileFormat():
